@@ -70,6 +70,7 @@ package fundraising
 // (a hook that swallowed the error would have to establish these clauses on BeginBlocker's failure paths, where nothing
 // is known about the state).
 //@ func (AppModule).BeginBlock
+//@ serves C17
 //@ requires Inv() && InvVQ() && InvMatched()
 //@ modifies Auction, Bid, MatchedBidsLen, VestingQueue, Bal, HookN, HookT, SetT, XferN, XferT, LastMatchTotal, LastMatchPrice, LastAllocHas, LastAlloc, LastRefundHas, LastRefund
 //@ ensures [C08] status-moves-only-forward: result == nil ==> forall(x, uint64, old(Auction[x]).present ==> Auction[x].present && forward(old(Auction[x]).Status, Auction[x].Status))
